@@ -67,8 +67,17 @@ def gen_listen_case(rng, n, alphabet_only=True):
                 subs[kk].discard(c)
             ops.append("rmclient %s" % c)
         elif r < 0.96 and not alphabet_only:
-            ops.append("tmp %s c=%s" % (k, rng.choice(CONTENTS)))
-            cur[k] = "?"
+            c = rng.choice(CONTENTS)
+            ops.append("tmp %s c=%s" % (k, c))
+            cur[k] = c        # what a client reads on this node, and the md5 it then holds
+            if rng.random() < 0.8 and k not in removed_subscribed:
+                # the forwarded publish is committed and applied on this node shortly afterwards (the usual sequence),
+                # now and then after a listener has registered with the temporary value
+                if rng.random() < 0.3:
+                    nlabel += 1
+                    ops.append("listen L%d dl=future %s=%s" % (nlabel, k, c))
+                hid += 1
+                ops.append("add %s c=%s type=- desc=- hid=%d mark=- time=%d user=-" % (k, c, hid, hid))
         else:
             ops.append("dump")
     ops.append("tick")
@@ -82,7 +91,8 @@ def gen_listener(rng, tier):
     for i in range(2500 if big else 200):
         cases.append(Case("listen-%d" % i, gen_listen_case(rng, rng.randrange(4, 40)), True, "random"))
     for i in range(400 if big else 40):
-        cases.append(Case("Mlisten-%d" % i, gen_listen_case(rng, rng.randrange(4, 40), alphabet_only=False), False, "malformed"))
+        # with temporary values (SetTmpValue: the node forwarded a publish to the leader and shows it before it is applied)
+        cases.append(Case("Tlisten-%d" % i, gen_listen_case(rng, rng.randrange(4, 40), alphabet_only=False), True, "random"))
     if big:
         # every interleaving of <= 5 events over one key: two listeners, publish a/b, remove
         evs = ["add d1|g1|t1 c=61 type=- desc=- hid={h} mark=- time=1 user=-",
